@@ -80,7 +80,8 @@ CLAIMED = {
              "function, removal is accepted under every tolerance and returns it (C05_removable_*, through linear independence of "
              "B-splines) - up to the model's inverse certificates (positive-definiteness of the Gram matrix is not "
              "proved; the correspondence run counts Uncertified = 0). tolerance=None interpolation is required for degree >= 1 "
-             "only (a degree-0 piecewise constant cannot interpolate both ends of a merged span)."),
+             "only (a degree-0 piecewise constant cannot interpolate both ends of a merged span); that clause is also proved for the model "
+             "(C05_forced_removal_*: always succeeds on compatible vectors, interpolates at every remaining knot)."),
     "C06": dict(
         text="Unbounded theorems (Props/C06.v): on a Bezier knot vector the Cox-de Boor basis is the Bernstein basis (closed "
              "form, every degree); the model's elevation matrix preserves the curve at every u for one step and for t steps, "
